@@ -63,7 +63,48 @@ def install_read_headers(e):
         base_havoc(c, a, old, k)
     base_rl.havoc = rl_havoc
 
+    # ---- ghost fold of the header lines (C20, C09): the dict returned is hstep folded over the header lines read -------
+    SC = z3.StringVal("set-cookie")
+
+    def hstep(H, line):
+        """effect of one header line `name: value` on the header map: key lower-cased, value stripped; a repeated Set-Cookie
+        is appended to the earlier one with "; " (so that every cookie of the response reaches the jar)."""
+        m, d = H
+        i = z3.IndexOf(line, z3.StringVal(":"), 0)
+        key = _M.str_lower(z3.SubString(line, 0, i))
+        val = _M.str_strip(z3.SubString(line, i + 1, z3.Length(line) - i - 1))
+        prev = z3.Select(m, SC)
+        join = z3.And(key == SC, z3.Select(d, SC), z3.Length(prev) > 0)
+        return (z3.Store(m, key, z3.If(join, z3.Concat(prev, z3.StringVal("; "), val), val)), z3.Store(d, key, z3.BoolVal(True)))
+
+    def after_header_split(c, fr, r):
+        node = getattr(c, "last_call_node", None)
+        if node is None or "$H" not in c.ghost or not (node.args and getattr(node.args[0], "value", None) == ":"):
+            return
+        c.ghost["$H"] = hstep(c.ghost["$H"], z(fr.locals["line"]))
+    e.after_call[("read_headers", "split")] = after_header_split
+
+    def same_map(c, headers_ref):
+        H = c.ghost.get("$H")
+        if H is None:
+            return z3.BoolVal(True)
+        data = c.cell(headers_ref).data
+        if "$map" in data:
+            return z3.And(data["$map"] == H[0], data["$dom"] == H[1])
+        return z3.BoolVal(len(data) == 0 and H[2:] == ("empty",))
+
+    def rh_ghost_entry(c, a):
+        c.ghost["$H"] = (z3.K(S, z3.StringVal("")), z3.K(S, z3.BoolVal(False)), "empty")
+
     def rh_post(c, old, a, res):
+        rx, r0, r1 = z(old.ghost["rx"]), z(old.ghost["rpos"]), z(c.ghost["rpos"])
+        ls = z(c.ghost["$line_start"])
+        status, headers, msg = res
+        if c.mode != "assume" and isinstance(headers, Ref) and "$H" in c.ghost:
+            return z3.And(rh_post_base(c, old, a, res), same_map(c, headers))
+        return rh_post_base(c, old, a, res)
+
+    def rh_post_base(c, old, a, res):
         rx, r0, r1 = z(old.ghost["rx"]), z(old.ghost["rpos"]), z(c.ghost["rpos"])
         ls = z(c.ghost["$line_start"])
         status, headers, msg = res
@@ -75,7 +116,8 @@ def install_read_headers(e):
 
     def rh_inv(c, fr, entry):
         rx, r0, r1 = z(entry.ghost["rx"]), z(entry.ghost["rpos"]), z(c.ghost["rpos"])
-        return z3.And(r0 <= r1, r1 <= slen(rx), z3.Or(r1 == r0, z(c.ghost["$line_start"]) < r1), r0 <= z(c.ghost["$line_start"]))
+        return z3.And(r0 <= r1, r1 <= slen(rx), z3.Or(r1 == r0, z(c.ghost["$line_start"]) < r1), r0 <= z(c.ghost["$line_start"]),
+                      same_map(c, fr.locals["headers"]))
 
     def rh_loop_havoc(c, fr, entry):
         havoc_rx(c)
@@ -83,6 +125,8 @@ def install_read_headers(e):
         h = fr.locals["headers"]
         cell = c.cell(h)
         cell.data = {"$map": smt.fresh(z3.ArraySort(S, S), "headers.map"), "$dom": smt.fresh(z3.ArraySort(S, smt.Bool), "headers.dom")}
+        if "$H" in c.ghost:
+            c.ghost["$H"] = (smt.fresh(z3.ArraySort(S, S), "H.map"), smt.fresh(z3.ArraySort(S, smt.Bool), "H.dom"))
     e.loop("read_headers", 0, inv=rh_inv, havoc=rh_loop_havoc,
            shapes={"status": ("opt", "int"), "status_message": ("opt", "str"), "line": "str", "status_info": ("const", None), "kv": ("const", None),
                    "key": "str", "value": "str"},
@@ -95,7 +139,7 @@ def install_read_headers(e):
     def rh_havoc(c, a, old, k):
         havoc_rx(c)
         c.ghost["$line_start"] = c.fresh("int", "line_start")
-    e.add(Contract(H + "read_headers", cases=[("open", rh_case)], ensures=rh_post, result=rh_result, havoc=rh_havoc,
+    e.add(Contract(H + "read_headers", cases=[("open", rh_case)], ensures=rh_post, result=rh_result, havoc=rh_havoc, ghost_entry=rh_ghost_entry,
                    raises=[(cls, None, None) for cls in RECV_EXC] + [(X.WebSocketException, None, None)],
                    modifies=lambda c, a: ["ghost:rpos", "ghost:rx_calls", "ghost:$line_start"], props=("C03", "C09", "C17", "C19", "C20"),
                    doc="reads the response head line by line (one byte per transport request) up to and including the first blank line and not "
@@ -570,6 +614,7 @@ def install_connect(e):
             c.ghost["opened_handles"] = c.fresh("int", "opened_handles")
             c.ghost["jar_adds"] = c.fresh("int", "jar_adds")
             c.ghost["$handshakes"] = 0
+            c.ghost["$nhs"] = SV("int", z3.IntVal(0))
             opts = {"redirect_limit": (smt.fresh(smt.Bool, "has_limit"), c.fresh("int", "redirect_limit")),
                     "timeout": (smt.fresh(smt.Bool, "has_timeout"), c.fresh(("opt!", "real"), "timeout"))}
             if kind == "own-socket":
@@ -579,6 +624,8 @@ def install_connect(e):
 
     def after_hs(c, fr, r):
         c.ghost["$handshakes"] = c.ghost.get("$handshakes", 0) + 1
+        if "$nhs" in c.ghost:
+            c.ghost["$nhs"] = SV("int", z(c.ghost["$nhs"]) + 1)
         c.ghost["$last_response"] = r
     e.after_call[("WebSocket.connect", "handshake")] = after_hs
     e.after_call[("WebSocket.connect", "connect")] = lambda c, fr, r: c.ghost.__setitem__("$connects", c.ghost.get("$connects", 0) + 1)
@@ -589,15 +636,28 @@ def install_connect(e):
     def wc_post(c, old, a, res):
         ws = a["self"]
         resp = c.getf(ws, "handshake_response")
+        if not isinstance(resp, Ref) and c.mode == "assume":
+            # at a call site (the app): the summary the havoc already established - connected, with a transport of its own
+            return z3.And(z(c.getf(ws, "connected"), "bool"), z3.Not(zn(c.getf(ws, "sock"))))
         if not isinstance(resp, Ref):
             return z3.BoolVal(False)
         st = c.getf(resp, "status")
         own = "socket" in old.cell(a["options"]).data
-        return z3.And(z(c.getf(ws, "connected"), "bool"), z3.Not(zn(c.getf(ws, "sock"))),
+        return z3.And(z(c.getf(ws, "connected"), "bool"), z3.Not(zn(c.getf(ws, "sock"))), redirect_budget(c, old, a),
                       z3.Not(zn(st)), (z(unopt(st), "int") == 101) if unopt(st) is not None else z3.BoolVal(False),
                       z3.BoolVal(resp is c.ghost.get("$last_response")),
                       # exactly one transport is left open: the one the object now owns
                       net_handles(c, c) == net_handles(c, old) + (0 if own else 1))
+
+    def redirect_budget(c, old, a):
+        """handshakes made <= 1 + the configured redirect limit (default 3; a limit below zero counts as zero)."""
+        ent = old.cell(a["options"]).data.get("redirect_limit")
+        if ent is None or "$nhs" not in c.ghost:
+            return z3.BoolVal(True)
+        has, lim = ent[0], z(ent[1], "int")
+        has = z3.BoolVal(True) if has is True else has
+        cfg = z3.If(has, z3.If(lim > 0, lim, 0), 3)
+        return z(c.ghost["$nhs"]) <= 1 + cfg
 
     def wc_fail(c, old, a, exc):
         ws = a["self"]
@@ -605,7 +665,7 @@ def install_connect(e):
         # every transport the library opened or took over in this call is closed again; a socket supplied by the caller is
         # taken over once the transport set-up has returned it (before that, e.g. for an invalid URL, it is still the caller's)
         taken = own is not None and c.ghost.get("$connects", 0) >= 1
-        return z3.And(zn(c.getf(ws, "sock")), z3.Not(z(c.getf(ws, "connected"), "bool")),
+        return z3.And(zn(c.getf(ws, "sock")), z3.Not(z(c.getf(ws, "connected"), "bool")), redirect_budget(c, old, a),
                       net_handles(c, c) == net_handles(c, old) - (1 if taken else 0))
 
     def wc_fail_value(c, old, a, exc):
@@ -621,7 +681,8 @@ def install_connect(e):
         own = "socket" in entry.cell(fr.locals["options"]).data or fr.locals.get("$own", False)
         st = c.getf(resp, "status") if isinstance(resp, Ref) else None
         st_ok = z3.And(z3.Not(zn(st)), in_set(z(unopt(st), "int"), REDIR + (101,))) if st is not None and unopt(st) is not None else z3.BoolVal(False)
-        return z3.And(z3.Not(zn(c.getf(ws, "sock"))), z3.Not(z(c.getf(ws, "connected"), "bool")), st_ok,
+        nhs = z3.And(z(c.ghost["$nhs"]) >= 1, z(c.ghost["$nhs"]) <= 1 + z(fr.locals["$i0"], "int")) if "$nhs" in c.ghost else z3.BoolVal(True)
+        return z3.And(z3.Not(zn(c.getf(ws, "sock"))), z3.Not(z(c.getf(ws, "connected"), "bool")), st_ok, nhs,
                       z3.BoolVal(isinstance(resp, Ref) and resp is c.ghost.get("$last_response")),
                       net_handles(c, c) == z(fr.locals["$net0"]) + z(fr.locals["$delta"]))
 
@@ -634,6 +695,8 @@ def install_connect(e):
         c.setf(ws, "handshake_response", r)
         c.ghost["$last_response"] = r
         c.ghost["$handshakes"] = 2
+        if "$nhs" in c.ghost:
+            c.ghost["$nhs"] = c.fresh("int", "handshakes_made")
         c.ghost["$connects"] = 2
         c.setf(ws, "sock", c.new_ext("sock"))
         fr.locals["$delta"] = 1
